@@ -294,6 +294,11 @@ func (f *Frame) loopWrites(L *Loop) (mems map[string]string, maps map[string]*ty
 	scanInstr := func(in ssa.Instruction, depth int, seen map[*ssa.Function]bool) {
 		switch x := in.(type) {
 		case *ssa.Store:
+			// a store into a non-escaping local that is (re)allocated inside the loop body or
+			// inside a scanned callee is invisible at the cut: the variable is fresh each time
+			if a := allocRoot(x.Addr); a != nil && !a.Heap && (depth > 0 || L.Blocks[a.Block()]) {
+				return
+			}
 			f.addMemsOfType(deref(x.Addr.Type()), mems)
 		case *ssa.MapUpdate:
 			mt := x.Map.Type().Underlying().(*types.Map)
@@ -386,6 +391,26 @@ func (f *Frame) addMemsOfType(t types.Type, mems map[string]string) {
 			mems["E"+(f.c.memName(t) + l.suffix)[1:]] = SArr(f.c.idxSort, l.sort)
 		}
 	}
+}
+
+// allocRoot: the local allocation an address is derived from by field/element selection, if any.
+func allocRoot(v ssa.Value) *ssa.Alloc {
+	for i := 0; i < 32; i++ {
+		switch x := v.(type) {
+		case *ssa.Alloc:
+			return x
+		case *ssa.FieldAddr:
+			v = x.X
+		case *ssa.IndexAddr:
+			if _, isPtr := x.X.Type().Underlying().(*types.Pointer); !isPtr {
+				return nil // element of a slice: the backing array is elsewhere
+			}
+			v = x.X
+		default:
+			return nil
+		}
+	}
+	return nil
 }
 
 func (f *Frame) loopScope(L *Loop, st *State) *Scope {
@@ -703,16 +728,20 @@ func (w *World) verifyCase(ct *Contract, caseIdx int) (res *FuncResult) {
 		c.Cover("exit", rst.reach, pos)
 	}
 	inputs := f.inputTerms()
+	resultTerms := map[string]Term{}
+	for i, r := range results {
+		if r.K == KScalar {
+			resultTerms[fmt.Sprintf("%d", i)] = r.T
+			if r.T.Sort == SRef && replayPossible(fn) {
+				f.structResultTerms(resultTerms, fmt.Sprintf("%d", i), r, rst, 0)
+			}
+		}
+	}
 	for _, e := range ct.Ensures {
 		t := f.evalSpecBool(post, e, "ensures")
 		o := c.Oblige("ensures", e.Name, rst.reach, t, pos, e.Src)
 		o.Inputs = inputs
-		o.Results = map[string]Term{}
-		for i, r := range results {
-			if r.K == KScalar {
-				o.Results[fmt.Sprintf("%d", i)] = r.T
-			}
-		}
+		o.Results = resultTerms
 	}
 	if ct.ModGiven {
 		f.frameObligations(rst, post, ct, pos)
@@ -721,6 +750,42 @@ func (w *World) verifyCase(ct *Contract, caseIdx int) (res *FuncResult) {
 		h(f, rst, ct, post)
 	}
 	return res
+}
+
+// structResultTerms: observable leaves of a pointer-to-struct result in the exit state
+// (scalar fields, lengths of slice fields, nested struct pointers two levels deep).
+func (f *Frame) structResultTerms(out map[string]Term, prefix string, r *Val, st *State, depth int) {
+	c := f.c
+	pt, ok := r.Ty.Underlying().(*types.Pointer)
+	if !ok {
+		return
+	}
+	stt, ok := pt.Elem().Underlying().(*types.Struct)
+	if !ok {
+		return
+	}
+	out[prefix+".nil"] = Eq(r.T, TNull)
+	for i := 0; i < stt.NumFields(); i++ {
+		fld := stt.Field(i)
+		name := prefix + "." + fld.Name()
+		ft := fld.Type()
+		switch u := ft.Underlying().(type) {
+		case *types.Basic:
+			if scalarShape(ft) {
+				out[name] = c.load(st, RefSub(r.T, i), ft).T
+			}
+		case *types.Slice:
+			v := c.load(st, RefSub(r.T, i), ft)
+			if v.K == KSlice {
+				out[name+".len"] = v.Len
+			}
+		case *types.Pointer:
+			if _, isStruct := u.Elem().Underlying().(*types.Struct); isStruct && depth < 2 {
+				v := c.load(st, RefSub(r.T, i), ft)
+				f.structResultTerms(out, name, v, st, depth+1)
+			}
+		}
+	}
 }
 
 func (f *Frame) assumeInput(v *Val) {
